@@ -123,7 +123,13 @@ pub fn run(report: &Report, args: &Args, prop: &str) {
                     if report.is_known(&fail.signature) {
                         report.known_hit(&fail.signature);
                     } else {
-                        report.violation("miri", &fail, json!({"engine": "miri", "program": "all", "seeds": [seeds.0, seeds.1]}));
+                        // Miri names the seed that failed: the replay runs just that one
+                        let failing = r
+                            .output
+                            .lines()
+                            .find_map(|l| l.trim().strip_prefix("FAILING SEED:").and_then(|n| n.trim().parse::<u32>().ok()));
+                        let range = failing.map(|n| (n, n + 1)).unwrap_or(seeds);
+                        report.violation("miri", &fail, json!({"engine": "miri", "program": "all", "seeds": [range.0, range.1]}));
                     }
                 }
                 None => {
